@@ -40,3 +40,13 @@ def codebase_ok(cb):
     # representation invariant of Codebase: three separate dictionaries, and the root folder is registered
     return dict_separate(cb.files, cb.totals) and dict_separate(cb.files, cb.tree) and dict_separate(cb.totals, cb.tree) \
         and has_key(cb.tree, "./")
+
+
+def end_line_of(tok):
+    # line on which the text of a token ends (only "\n" ends a line)
+    return tok.location.line + count_char(tok.value, "\n")
+
+
+def end_column_of(tok):
+    # column just past the last character of a token
+    return tok.location.column + len(tok.value) if count_char(tok.value, "\n") == 0 else len(tok.value) - last_index_of(tok.value, "\n")
